@@ -148,7 +148,7 @@ def run_cases(sc, wire, cases, name='b', runtime=True, check=False, show=False, 
     if collect_gen:
         for d in wrote:
             try:
-                out.gen[obs[d]['key']] = (b.by_dir[d].pkgname, open(os.path.join(b.root, d, 'wire_gen.go')).read())
+                out.gen[obs[d]['key']] = (b.by_dir[d].pkgname, open(os.path.join(b.root, d, 'wire_gen.go'), errors='replace').read())
             except OSError:
                 pass
     out.accepted = sum(1 for d in dirs if obs[d]['wrote'])
